@@ -421,6 +421,11 @@ func (d *drv) runCase(in *caseInput) {
 			if pr.Kind == "missing-index" {
 				class = "c11-index-missing"
 			}
+			if pr.Kind == "index-on-single" {
+				// not covered by fix 8c11b39: the source document holds a one-member array, the
+				// stored entry carries no index
+				class = "c11-index-single-member"
+			}
 			if pr.Kind == "failing-context" {
 				class = "c11-failing-context"
 			}
